@@ -45,6 +45,27 @@ CONSTANTS = {
         ("IVMDN_DAYS_START", "arrow-row/src/fixed.rs", r"impl FixedLengthEncoding for IntervalMonthDayNano \{\s*type Encoded = \[u8; 16\];\s*fn encode\(self\) -> Self::Encoded \{\s*let mut out = \[0_u8; 16\];\s*out\[\.\.\d+\]\.copy_from_slice\(&self\.months\.encode\(\)\);\s*out\[(\d+)\.\.\d+\]\.copy_from_slice\(&self\.days\.encode\(\)\);\s*out\[\d+\.\.\]\.copy_from_slice\(&self\.nanoseconds\.encode\(\)\);\s*out\s*\}", "int"),
         ("IVMDN_DAYS_END", "arrow-row/src/fixed.rs", r"impl FixedLengthEncoding for IntervalMonthDayNano \{\s*type Encoded = \[u8; 16\];\s*fn encode\(self\) -> Self::Encoded \{\s*let mut out = \[0_u8; 16\];\s*out\[\.\.\d+\]\.copy_from_slice\(&self\.months\.encode\(\)\);\s*out\[\d+\.\.(\d+)\]\.copy_from_slice\(&self\.days\.encode\(\)\);\s*out\[\d+\.\.\]\.copy_from_slice\(&self\.nanoseconds\.encode\(\)\);\s*out\s*\}", "int"),
         ("IVMDN_NANOS_START", "arrow-row/src/fixed.rs", r"impl FixedLengthEncoding for IntervalMonthDayNano \{\s*type Encoded = \[u8; 16\];\s*fn encode\(self\) -> Self::Encoded \{\s*let mut out = \[0_u8; 16\];\s*out\[\.\.\d+\]\.copy_from_slice\(&self\.months\.encode\(\)\);\s*out\[\d+\.\.\d+\]\.copy_from_slice\(&self\.days\.encode\(\)\);\s*out\[(\d+)\.\.\]\.copy_from_slice\(&self\.nanoseconds\.encode\(\)\);\s*out\s*\}", "int"),
+        # SHAPE items: guards, statement order and operand sources the model/theorems rely on; the
+        # captured literal is incidental, an edit of the surrounding expression loses the item
+        ("SHAPE_ENC_ONE", "arrow-row/src/variable.rs", r"let len = if val\.len\(\) <= BLOCK_SIZE \{\s*(1) \+ encode_blocks::<MINI_BLOCK_SIZE>\(&mut out\[1\.\.\], val\)\s*\} else \{\s*let \(initial, rem\) = val\.split_at\(BLOCK_SIZE\);\s*let offset = encode_blocks::<MINI_BLOCK_SIZE>\(&mut out\[1\.\.\], initial\);\s*out\[offset\] = BLOCK_CONTINUATION;\s*1 \+ offset \+ encode_blocks::<BLOCK_SIZE>\(&mut out\[1 \+ offset\.\.\], rem\)\s*\};", "int"),
+        ("SHAPE_ENC_ONE_DESC", "arrow-row/src/variable.rs", r"out\[0\] = NON_EMPTY_SENTINEL;.*?if opts\.descending \{(?:\s*//[^\n]*\n)*\s*out\[\.\.len\]\.iter_mut\(\)\.for_each\(\|v\| \*v = !\*v\)\s*\}\s*len\s*\}\s*\}\s*\}.*?fn encode_blocks<const SIZE: usize>\(out: &mut \[u8\], val: &\[u8\]\) -> usize \{\s*let block_count = ceil\(val\.len\(\), SIZE\);\s*let end_offset = block_count \* \(SIZE \+ (1)\);", "int"),
+        ("SHAPE_ENC_BLOCKS_TAIL", "arrow-row/src/variable.rs", r"output\[SIZE\] = BLOCK_CONTINUATION;\s*\}\s*if !remainder\.is_empty\(\) \{\s*let start_offset = \(block_count - (1)\) \* \(SIZE \+ 1\);\s*to_write\[start_offset\.\.start_offset \+ remainder\.len\(\)\]\.copy_from_slice\(remainder\);\s*\*to_write\.last_mut\(\)\.unwrap\(\) = remainder\.len\(\) as u8;\s*\} else \{(?:\s*//[^\n]*\n)*\s*\*to_write\.last_mut\(\)\.unwrap\(\) = SIZE as u8;", "int"),
+        ("SHAPE_PADDED_LEN", "arrow-row/src/variable.rs", r"fn non_null_padded_length\(len: usize\) -> usize \{\s*if len <= BLOCK_SIZE \{\s*(1) \+ ceil\(len, MINI_BLOCK_SIZE\) \* \(MINI_BLOCK_SIZE \+ 1\)\s*\} else \{(?:\s*//[^\n]*\n)*\s*MINI_BLOCK_COUNT \+ ceil\(len, BLOCK_SIZE\) \* \(BLOCK_SIZE \+ 1\)", "int"),
+        ("SHAPE_ENC_EMPTY", "arrow-row/src/variable.rs", r"pub fn encode_empty\(out: &mut \[u8\], opts: SortOptions\) -> usize \{\s*out\[0\] = match opts\.descending \{\s*true => !EMPTY_SENTINEL,\s*false => EMPTY_SENTINEL,\s*\};\s*(1)\s*\}", "int"),
+        ("SHAPE_DECODE_GUARD", "arrow-row/src/variable.rs", r"true => \(!NON_EMPTY_SENTINEL, !BLOCK_CONTINUATION\),\s*false => \(NON_EMPTY_SENTINEL, BLOCK_CONTINUATION\),\s*\};\s*if row\[0\] != non_empty_sentinel \{(?:\s*//[^\n]*\n)*\s*return (1);", "int"),
+        ("SHAPE_FIXED_DESC", "arrow-row/src/fixed.rs", r"to_write\[0\] = 1;\s*let mut encoded = values\[value_idx\]\.encode\(\);\s*if opts\.descending \{(?:\s*//[^\n]*\n)*\s*encoded\.as_mut\(\)\.iter_mut\(\)\.for_each\(\|v\| \*v = !\*v\)\s*\}\s*to_write\[(1)\.\.\]\.copy_from_slice\(encoded\.as_ref\(\)\)", "int"),
+        ("SHAPE_FIXED_NOT_NULL_DESC", "arrow-row/src/fixed.rs", r"to_write\[0\] = 1;\s*let mut encoded = val\.encode\(\);\s*if opts\.descending \{(?:\s*//[^\n]*\n)*\s*encoded\.as_mut\(\)\.iter_mut\(\)\.for_each\(\|v\| \*v = !\*v\)\s*\}\s*to_write\[(1)\.\.\]\.copy_from_slice\(encoded\.as_ref\(\)\);", "int"),
+        ("SHAPE_UNSIGNED", "arrow-row/src/fixed.rs", r"macro_rules! encode_unsigned \{.*?fn encode\(self\) -> \[u8; \$n\] \{\s*self\.to_be_bytes\(\)\s*\}.*?encode_unsigned!\((1), u8\);\s*encode_unsigned!\(2, u16\);\s*encode_unsigned!\(4, u32\);\s*encode_unsigned!\(8, u64\);", "int"),
+        ("SHAPE_CHILD_OPTS_LIST", "arrow-row/src/lib.rs", r"\| DataType::LargeListView\(f\) => \{(?:\s*//[^\n]*\n)*\s*let options = SortOptions \{\s*descending: false,\s*nulls_first: sort_field\.options\.nulls_first != sort_field\.options\.descending,\s*\};.*?assert_eq!\(fields\.len\(\), (2)\);", "int"),
+        ("SHAPE_CHILD_OPTS_REE", "arrow-row/src/lib.rs", r"DataType::RunEndEncoded\(_, values\) => \{(?:\s*//[^\n]*\n)*\s*let options = SortOptions \{\s*descending: false,\s*nulls_first: sort_field\.options\.nulls_first != sort_field\.options\.descending,\s*\};.*?assert_eq!\(fields\.len\(\), (2)\);", "int"),
+        ("SHAPE_CHILD_OPTS_MAP", "arrow-row/src/lib.rs", r"DataType::Map\(f, _\) => \{(?:\s*//[^\n]*\n)*\s*let options = SortOptions \{\s*descending: false,\s*nulls_first: sort_field\.options\.nulls_first != sort_field\.options\.descending,\s*\};.*?assert_eq!\(fields\.len\(\), (2)\);", "int"),
+        ("SHAPE_CHILD_OPTS_STRUCT", "arrow-row/src/lib.rs", r"DataType::Struct\(f\) => \{\s*let sort_fields = f\s*\.iter\(\)\s*\.map\(\|x\| SortField::new_with_options\(x\.data_type\(\)\.clone\(\), sort_field\.options\)\)\s*\.collect\(\);.*?new_null_array\(x\.data_type\(\), (1)\)", "int"),
+        ("SHAPE_CHILD_OPTS_FSL", "arrow-row/src/lib.rs", r"DataType::FixedSizeList\(f, _\) => \{\s*let field = SortField::new_with_options\(f\.data_type\(\)\.clone\(\), sort_field\.options\);\s*let converter = RowConverter::new\(vec!\[field\]\)\?;\s*Ok\(Self::List\(converter\)\)\s*\}.*?new_null_array\(x\.data_type\(\), (1)\)", "int"),
+        ("SHAPE_CHILD_OPTS_DICT", "arrow-row/src/lib.rs", r"DataType::Dictionary\(_, values\) => \{\s*let sort_field =\s*SortField::new_with_options\(values\.as_ref\(\)\.clone\(\), sort_field\.options\);\s*let converter = RowConverter::new\(vec!\[sort_field\]\)\?;\s*let null_array = new_null_array\(values\.as_ref\(\), (1)\);", "int"),
+        ("SHAPE_LIST_ENCODE_ONE", "arrow-row/src/list.rs", r"None => super::variable::encode_null\(out, opts\),\s*Some\(range\) if range\.start == range\.end => super::variable::encode_empty\(out, opts\),\s*Some\(range\) => \{\s*let mut offset = (0);\s*for i in range \{\s*let row = rows\.row\(i\);\s*offset \+= super::variable::encode_one\(&mut out\[offset\.\.\], Some\(row\.data\), opts\);\s*\}\s*offset \+= super::variable::encode_empty\(&mut out\[offset\.\.\], opts\);\s*offset", "int"),
+        ("SHAPE_STRUCT_ENCODE", "arrow-row/src/lib.rs", r"false => \(\*null, null_sentinel\),\s*\};\s*let end_offset = \*offset \+ (1) \+ row\.as_ref\(\)\.len\(\);\s*data\[\*offset\] = sentinel;\s*data\[\*offset \+ 1\.\.end_offset\]\.copy_from_slice\(row\.as_ref\(\)\);", "int"),
+        ("SHAPE_REE_ENCODE", "arrow-row/src/run.rs", r"let bytes_written = variable::encode_one\(out, Some\(rows\.row\(physical_idx\)\.data\), opts\);\s*offsets\[offset_idx\] \+= bytes_written;(?:\s*//[^\n]*\n)*\s*for i in (1)\.\.iteration_count \{", "int"),
+        ("SHAPE_ROWS_PUSH", "arrow-row/src/lib.rs", r"pub fn push\(&mut self, row: Row<'_>\) \{.*?self\.buffer\.extend_from_slice\(row\.data\);\s*self\.offsets\.push\(self\.buffer\.len\(\)\)\s*\}.*?self\.offsets\.truncate\((1)\);\s*self\.buffer\.clear\(\);", "int"),
         # the signed macro itself: `to_be_bytes` then the sign-bit toggle, for exactly these widths
         ("SIGNED_WIDTHS", "arrow-row/src/fixed.rs", r"encode_signed!\((1), i8\);\s*encode_signed!\(2, i16\);\s*encode_signed!\(4, i32\);\s*encode_signed!\(8, i64\);\s*encode_signed!\(16, i128\);\s*encode_signed!\(32, i256\);", "int"),
     ],
